@@ -87,6 +87,9 @@ def tangent_towards_arrives(ctx, n):
     ctx.ensure_eq('tangent_to_hyperboloid', spec.mink(tv.vector, tv.point), 0, tol=1e-6)
     z = tv.point_along(d).proj_data
     ctx.ensure_eq('arrives_at_q', z[None, :], y[None, :], proj=True, tol=1e-5)
+    # the same tangent vector object used again (after point_along / origin_to have run on it) still points at q
+    z2 = tv.normalized().point_along(d).proj_data
+    ctx.ensure_eq('arrives_at_q_when_reused', z2[None, :], y[None, :], proj=True, tol=1e-5)
 
 
 @rcontract(P, "angle_law_of_cosines", instances=[], thorough=[dict(n=2)], timeout=150.0, max_paths=60,
